@@ -22,6 +22,8 @@
 (* An observation (one call of the real code on the case) is                       *)
 (*   [err : STRING, hasy, hasw : BOOLEAN (second variable / weights were passed),  *)
 (*    wantrev : BOOLEAN (the call is documented to produce reverse indices),       *)
+(*    stats : BOOLEAN (FALSE: observed after dohist(calc_stats=False) - only the   *)
+(*    histogram is there yet),                                                     *)
 (*    hist : Seq(Nat), hasrev : BOOLEAN, rev : Seq(Nat) (0-based, as returned),    *)
 (*    low, high, center, mean, var, err2, med, ymean, yvar, yerr2, ymed,           *)
 (*    whist, wmean, wvar, werri, werr2, wymean, wyvar, wyerri, wyerr2 :            *)
@@ -183,15 +185,139 @@ BByNumFailing(c, o) ==
 BFailing(c, o) ==
     IF o.err # "none" THEN (IF NoData(c) \/ (c.mode # "nperbin" /\ Degenerate(c)) THEN {} ELSE {"unexpected_error"})
     ELSE IF NoData(c) THEN {"nodata_not_rejected"}
-    ELSE IF c.mode = "nperbin" THEN BByNumFailing(c, o)
+    ELSE IF c.mode = "nperbin" THEN (IF o.stats THEN BByNumFailing(c, o) ELSE BByNumStructFailing(c, o))
     ELSE IF Degenerate(c) THEN {}
     ELSE LET hf == Failing(c, o) IN
          IF hf # {} THEN {"hist_" \o f : f \in hf}
+         ELSE IF ~o.stats THEN {}                    \* dohist(calc_stats=False): only the histogram exists yet
          ELSE BEdgesFailing(c, o, NBin(c)) \cup
               (IF o.hasrev THEN BStatsFailing(c, o, NBin(c))
                ELSE IF o.wantrev THEN {"rev_missing"} ELSE {})
 
 BAccept(c, o) == BFailing(c, o) = {}
+
+\* =====================================================================================
+\* HISTORIES on one Binner: dohist / calc_stats calls, some of which are REJECTED
+\* =====================================================================================
+\* An event is [op : "dohist" | "calc", mode, b, merge, hasmin, min, hasmax, max (the bin specification),
+\*              nokw : BOOLEAN (no binsize / nbin / nperbin given), cs : BOOLEAN (calc_stats flag),
+\*              o : the observation after the call].
+\* Abstract state: the specification of the last SUCCESSFUL dohist (has, last) and whether a later dohist was
+\* rejected (cleared).  A rejected call is a stutter step on everything later calls read - or it drops the
+\* results altogether (the statement is silent; the unchanged code drops them): after it, calc_stats either
+\* raises or reports quantities that equal direct computation FOR THE LAST SUCCESSFUL specification.
+\* Anything else - in particular a mixture of the results of one call with the range of another - is rejected.
+BEvCase(c, ev) == [x |-> c.x, y |-> c.y, w |-> c.w, mode |-> ev.mode, b |-> ev.b, merge |-> ev.merge,
+                   hasmin |-> ev.hasmin, min |-> ev.min, hasmax |-> ev.hasmax, max |-> ev.max]
+BEvRejects(c, ev) == ev.nokw \/ NoData(BEvCase(c, ev))
+BHist0 == [has |-> FALSE, last |-> 0, cleared |-> FALSE, unk |-> FALSE]       \* last = index of the event
+BHistStep(c, evs, k, s) ==                                                       \* -> [f : failing clauses, s : next state]
+    LET ev == evs[k]  o == ev.o
+    IN IF ev.op = "dohist"
+       THEN IF BEvRejects(c, ev)
+            THEN IF o.err # "none" THEN [f |-> {}, s |-> [s EXCEPT !.cleared = TRUE]]
+                 ELSE IF ev.nokw THEN [f |-> {}, s |-> [s EXCEPT !.unk = TRUE]]          \* not in the statement: nothing to judge by
+                 ELSE [f |-> {"nodata_not_rejected"}, s |-> [s EXCEPT !.unk = TRUE]]
+            ELSE IF o.err # "none" THEN [f |-> BFailing(BEvCase(c, ev), o), s |-> [s EXCEPT !.unk = TRUE]]
+                 ELSE [f |-> BFailing(BEvCase(c, ev), o), s |-> [has |-> TRUE, last |-> k, cleared |-> FALSE, unk |-> FALSE]]
+       ELSE [s |-> s,
+             f |-> IF s.unk THEN {}
+                   ELSE IF o.err # "none"
+                        THEN (IF ~s.has \/ s.cleared THEN {} ELSE {"calc_stats_failed_after_successful_dohist"})
+                        ELSE IF ~s.has THEN {"statistics_without_a_histogram"}
+                        ELSE {"after_history_" \o g : g \in BFailing(BEvCase(c, evs[s.last]), o)}]
+RECURSIVE BHistFrom(_, _, _, _)
+BHistFrom(c, evs, k, s) ==
+    IF k > Len(evs) THEN {}
+    ELSE LET r == BHistStep(c, evs, k, s)
+         IN {ToString(k) \o ":" \o g : g \in r.f} \cup BHistFrom(c, evs, k + 1, r.s)
+BHistoryFailing(c, evs) == BHistFrom(c, evs, 1, BHist0)
+
+\* =====================================================================================
+\* SCALE: bins with hundreds to thousands of members, judged through the replication law
+\* =====================================================================================
+\* A scale case is a small PATTERN case c (binsize, or nperbin with distinct x and b | n; no limits) plus
+\* sc = [K, NB, T]: the data handed to the code are NB blocks (block k shifted by k * BScStep(c) along x, so that it
+\* falls into bins of its own) of K replicas of the pattern; replica r of pattern element p carries
+\*     x = x[p] + blk * step,   y = y[p] * T + (r mod T),   weight w[p]
+\* in a scrambled order.  The LAW (theorem ScaleLaw of BinStatsMC.tla, checked by explicit expansion on the small
+\* scope): bin (blk, i0) holds exactly the K replicas of the members P of pattern bin i0, and its statistics follow
+\* from those of P:  for a variable with sub-pattern period T (x: T = 1)
+\*     mean = T mean_P + (T-1)/2,  variance = T^2 var_P + (T^2-1)/12,  median = that of the multiset
+\*     {v[p] T + t : p in P, t < T} with every element counted K/T times,  summed weight = K W_P,
+\*     werr^2 = 1/(K W_P),  werr2^2 = (T^2 E_P + (T^2-1)/12 * sum w^2 / W^2) / K      (E_P = SErr2Calc of P)
+\* The observation is compressed: instead of the reverse indices, per bin the number of listed members per pattern
+\* position in the right block (cnt), the number of other / out-of-range entries (foreign) and of repeated
+\* entries (dups).
+BScPerBlock(c) == IF c.mode = "nperbin" THEN Len(c.x) \div c.b ELSE NBin(c)
+BScStep(c)     == IF c.mode = "nperbin" THEN Hi(c) - Lo(c) + 1 ELSE NBin(c) * c.b
+BScMembers(c, i0) ==                                    \* pattern positions of pattern bin i0 (0-based)
+    IF c.mode = "nperbin" THEN LET s == SSortPos(c.x, DOMAIN c.x) IN {s[k] : k \in (i0 * c.b + 1)..((i0 + 1) * c.b)}
+    ELSE VRange(Members(c, i0))
+BScPatternOK(c) == /\ ~c.hasmin /\ ~c.hasmax
+                   /\ (c.mode = "binsize" \/ (c.mode = "nperbin" /\ Cardinality(VRange(c.x)) = Len(c.x) /\ Len(c.x) % c.b = 0))
+
+BLMean(v, wt, P, T) == RAdd(RMul(RInt(T), SMean(v, wt, P)), RNorm(T - 1, 2))
+BLVar(v, wt, P, T)  == RAdd(RMul(RInt(T * T), SVar(v, wt, P)), RNorm(T * T - 1, 12))
+BLMedian(v, P, T, R) ==
+    LET vals     == {v[p] * T + t : p \in P, t \in 0..(T - 1)}
+        cntOf(u) == R * Cardinality({pt \in P \X (0..(T - 1)) : v[pt[1]] * T + pt[2] = u})
+        cum(u)   == VSumF(cntOf, {z \in vals : z <= u})
+        kth(k)   == CHOOSE u \in vals : cum(u) >= k /\ cum(u) - cntOf(u) < k
+        NN        == Cardinality(P) * T * R
+    IN IF NN % 2 = 1 THEN RInt(kth((NN + 1) \div 2)) ELSE RNorm(kth(NN \div 2) + kth(NN \div 2 + 1), 2)
+BLErr2Calc(v, w, P, T, K) ==
+    LET W  == SSumW(w, P)
+        W2 == VSumF(LAMBDA i : w[i] * w[i], P)
+    IN RDiv(RAdd(RMul(RInt(T * T), SErr2Calc(v, w, P, SMean(v, w, P))), RMul(RNorm(W2, W * W), RNorm(T * T - 1, 12))), RInt(K))
+
+\* unweighted quantities of a large bin (members: K replicas of P; shift: what the block adds to value-type quantities)
+BScPlainFailing(pre, v, P, T, K, shift, m, va, e2, md) ==
+    LET n == Cardinality(P)  NN == n * K  ones == SOnes(Len(v))
+        pop == BLVar(v, ones, P, T)  samp == RMul(pop, RNorm(NN, NN - 1))
+    IN IF n = 0 THEN BPlainFailing(pre, v, P, m, va, e2, md)
+       ELSE (IF BObsEq(m, RAdd(BLMean(v, ones, P, T), RInt(shift))) THEN {} ELSE {pre \o "mean"}) \cup
+            (IF BObsIn(va, {pop, samp}) THEN {} ELSE {pre \o "std"}) \cup
+            (IF BObsEq(md, RAdd(BLMedian(v, P, T, K \div T), RInt(shift))) THEN {} ELSE {pre \o "median"}) \cup
+            (IF BObsIn(e2, {RDiv(pop, RInt(NN)), RDiv(samp, RInt(NN))}) THEN {} ELSE {pre \o "err"})
+BScWtFailing(pre, v, w, P, T, K, shift, m, va, ei, e2) ==
+    IF P = {} THEN BWtFailing(pre, v, w, P, m, va, ei, e2)
+    ELSE (IF BObsEq(m, RAdd(BLMean(v, w, P, T), RInt(shift))) THEN {} ELSE {pre \o "mean"}) \cup
+         (IF BObsEq(va, BLVar(v, w, P, T)) THEN {} ELSE {pre \o "std"}) \cup
+         (IF BObsEq(ei, RNorm(1, K * SSumW(w, P))) THEN {} ELSE {pre \o "err"}) \cup
+         (IF BObsEq(e2, BLErr2Calc(v, w, P, T, K)) THEN {} ELSE {pre \o "err2"})
+
+BScBinFailing(c, sc, o, i) ==                           \* big bin i (1-based)
+    LET per == BScPerBlock(c)  blk == (i - 1) \div per  i0 == (i - 1) % per
+        P == BScMembers(c, i0)  K == sc.K  shift == blk * BScStep(c)
+        cls == IF P = {} THEN "empty-bin" ELSE "large-bin"
+        memb == /\ o.hist[i] = K * Cardinality(P) /\ o.comp.foreign[i] = 0 /\ o.comp.dups[i] = 0
+                /\ \A p \in DOMAIN c.x : o.comp.cnt[i][p] = (IF p \in P THEN K ELSE 0)
+        edges == IF c.mode = "nperbin"
+                 THEN (IF BObsEq(o.low[i], RInt(SMinOf(c.x, P) + shift)) THEN {} ELSE {"nperbin_low"}) \cup
+                      (IF BObsEq(o.high[i], RInt(SMaxOf(c.x, P) + shift)) THEN {} ELSE {"nperbin_high"})
+                 ELSE (IF BObsEq(o.low[i], RAdd(BLow(c, i0), RInt(shift))) THEN {} ELSE {"low"}) \cup
+                      (IF BObsEq(o.high[i], RAdd(BLow(c, i0 + 1), RInt(shift))) THEN {} ELSE {"high"}) \cup
+                      (IF BObsEq(o.center[i], RAdd(RAdd(BLow(c, i0), RDiv(BBinSize(c), RInt(2))), RInt(shift))) THEN {} ELSE {"center"})
+    IN IF ~memb THEN {"members_of_large_bin"}
+       ELSE {f \o "|" \o cls : f \in
+               edges \cup
+               BScPlainFailing("", c.x, P, 1, K, shift, o.mean[i], o.var[i], o.err2[i], o.med[i]) \cup
+               (IF o.hasy THEN BScPlainFailing("y", c.y, P, sc.T, K, 0, o.ymean[i], o.yvar[i], o.yerr2[i], o.ymed[i]) ELSE {}) \cup
+               (IF o.hasw THEN (IF P = {} THEN BWhistFailing(c.w, P, o.whist[i])
+                                ELSE IF BObsEq(o.whist[i], RInt(K * SSumW(c.w, P))) THEN {} ELSE {"whist"}) \cup
+                               BScWtFailing("w", c.x, c.w, P, 1, K, shift, o.wmean[i], o.wvar[i], o.werri[i], o.werr2[i]) ELSE {}) \cup
+               (IF o.hasw /\ o.hasy THEN BScWtFailing("wy", c.y, c.w, P, sc.T, K, 0, o.wymean[i], o.wyvar[i], o.wyerri[i], o.wyerr2[i]) ELSE {})}
+
+BScaleFailing(c, sc, o) ==
+    IF o.err # "none" THEN {"unexpected_error"}
+    ELSE LET nb == sc.NB * BScPerBlock(c)
+             edgeflds == IF c.mode = "nperbin" THEN {o.low, o.high} ELSE {o.low, o.high, o.center}
+         IN IF Len(o.hist) # nb THEN {"number_of_bins_at_scale"}
+            ELSE IF ~BShapeOK(nb, {o.comp.cnt, o.comp.foreign, o.comp.dups}) THEN {"rev_missing"}
+            ELSE IF ~BShapeOK(nb, edgeflds) THEN {"edges_missing_or_misshapen"}
+            ELSE IF ~BShapeOK(nb, BStatFields(o)) THEN {"statistics_missing_or_misshapen"}
+            ELSE UNION {BScBinFailing(c, sc, o, i) : i \in 1..nb}
 
 \* =====================================================================================
 \* Implementation-shaped pieces (Binner._hist_by_num, _merge_last, calc_stats)
@@ -261,7 +387,7 @@ BMechBins(c, p, fixedWhist) ==
 BMechObs(c, p, bins) ==
     LET nb == Len(p.hist)
         byNum == c.mode = "nperbin"
-    IN [err |-> "none", hasy |-> TRUE, hasw |-> TRUE, wantrev |-> TRUE, hist |-> p.hist, hasrev |-> TRUE, rev |-> p.rev,
+    IN [err |-> "none", stats |-> TRUE, hasy |-> TRUE, hasw |-> TRUE, wantrev |-> TRUE, hist |-> p.hist, hasrev |-> TRUE, rev |-> p.rev,
         low    |-> IF byNum THEN [i \in 1..nb |-> BRat(RInt(p.low[i]))] ELSE [i \in 1..nb |-> BRat(BLow(c, i - 1))],
         high   |-> IF byNum THEN [i \in 1..nb |-> BRat(RInt(p.high[i]))] ELSE [i \in 1..nb |-> BRat(BLow(c, i))],
         center |-> IF byNum THEN <<>> ELSE [i \in 1..nb |-> BRat(RAdd(BLow(c, i - 1), RDiv(BBinSize(c), RInt(2))))],
@@ -339,7 +465,7 @@ BMechObs(c, p, fixedWhist) ==
         wt(v) == [i \in 1..nb |-> BMechWt(v, c.w, sl(i))]
         px == pl(c.x)  py == pl(c.y)  wx == wt(c.x)  wy == wt(c.y)
         byNum == c.mode = "nperbin"
-    IN [err |-> "none", hasy |-> TRUE, hasw |-> TRUE, wantrev |-> TRUE, hist |-> p.hist, hasrev |-> TRUE, rev |-> p.rev,
+    IN [err |-> "none", stats |-> TRUE, hasy |-> TRUE, hasw |-> TRUE, wantrev |-> TRUE, hist |-> p.hist, hasrev |-> TRUE, rev |-> p.rev,
         low    |-> IF byNum THEN [i \in 1..nb |-> BRat(RInt(p.low[i]))] ELSE [i \in 1..nb |-> BRat(BLow(c, i - 1))],
         high   |-> IF byNum THEN [i \in 1..nb |-> BRat(RInt(p.high[i]))] ELSE [i \in 1..nb |-> BRat(BLow(c, i))],
         center |-> IF byNum THEN <<>> ELSE [i \in 1..nb |-> BRat(RAdd(BLow(c, i - 1), RDiv(BBinSize(c), RInt(2))))],
